@@ -781,13 +781,13 @@ def handle (st : State) (ws : List String) : State × String :=
     match st.web, m, (fs.lookup "path").bind hexToStr, (jsonField fs "params").bind paramsOfJson with
     | some s, some m, some p, some ps =>
       let (r, es) := request s m p ps
-      (st, s!"{showResp r} log={jsonHex (logToJson es)}")
+      (st, s!"ok {showResp r} log={jsonHex (logToJson es)}")
     | _, _, _, _ => (st, "bad-op")
   | "webc" :: _ =>
     match st.web with
     | some s =>
       match step s .webc with
-      | (s', .closed r, _) => ({ web := some s' }, s!"ret={r}")
+      | (s', .closed r, _) => ({ web := some s' }, s!"ok ret={r}")
       | _ => (st, "bad-op")
     | none => (st, "bad-op")
   | "ws" :: rest =>
@@ -796,14 +796,14 @@ def handle (st : State) (ws : List String) : State × String :=
     | some h, some evs, some (.arr rs) =>
       let ids := rs.filterMap JVal.nat?
       let (s, log) := Ws.run (fun i _ => ids.contains i) { handler := h } evs
-      (st, s!"alive={if s.alive then 1 else 0} log={jsonHex (wsLogToJson log)}")
+      (st, s!"ok alive={if s.alive then 1 else 0} log={jsonHex (wsLogToJson log)}")
     | _, _, _ => (st, "bad-op")
   | "send" :: rest =>
     let fs := fields rest
     match natField fs "scalars", (jsonField fs "val").bind kvalOfJson with
     | some sc, some v =>
       match send (sc != 0) v with
-      | some t => (st, "text=" ++ strToHex (String.ofList t) ++ " view=" ++ jsonHex (jsonView v))
+      | some t => (st, "ok text=" ++ strToHex (String.ofList t) ++ " view=" ++ jsonHex (jsonView v))
       | none => (st, "none")
     | _, _ => (st, "bad-op")
   | "parse" :: rest =>
@@ -811,7 +811,7 @@ def handle (st : State) (ws : List String) : State × String :=
     match (fs.lookup "text").bind hexToStr with
     | some t =>
       match parse t.toList with
-      | some j => (st, "ok=" ++ jsonHex j)
+      | some j => (st, "ok json=" ++ jsonHex j)
       | none => (st, "none")
     | none => (st, "bad-op")
   | _ => (st, "bad-op")
